@@ -14,7 +14,7 @@ LEVEL = "model_checking"
 ENCODED = ["twisted.internet.task:Cooperator._tick", "twisted.internet.task:Cooperator._tasksWhileNotStopped",
            "twisted.internet.task:Cooperator._addTask", "twisted.internet.task:Cooperator._removeTask",
            "twisted.internet.task:Cooperator._reschedule", "twisted.internet.task:Cooperator.stop",
-           "twisted.internet.task:Cooperator.cooperate",
+           "twisted.internet.task:Cooperator.cooperate", "twisted.internet.task:Cooperator.coiterate",
            "twisted.internet.task:CooperativeTask.__init__", "twisted.internet.task:CooperativeTask.whenDone",
            "twisted.internet.task:CooperativeTask.pause", "twisted.internet.task:CooperativeTask.resume",
            "twisted.internet.task:CooperativeTask.stop", "twisted.internet.task:CooperativeTask._completeWith",
@@ -25,13 +25,13 @@ BOUNDS = {"quick": {"n": 2, "slen": 3, "hist": 4, "n3": 3, "hist3": 4},
 B = {}
 BOUNDS_TEXT = ("Cooperator(started=True) with a list scheduler and a termination predicate that ends the tick after "
                "one work unit; n tasks (history: n=2 with <= hist operations, history3: n3=3 with <= hist3 "
-               "operations) all created up front, iterator scripts of slen symbolic steps {0 yield value, 1 yield "
+               "operations) all created up front (the last one through coiterate(), the others through cooperate()), iterator scripts of slen symbolic steps {0 yield value, 1 yield "
                "unfired Deferred, 2 raise, any other integer stop} then StopIteration; operations {tick, pause i, resume i, stop i, fire "
                "the Deferred task i waits on with success / failure, Cooperator.stop()}; a history ends at the "
                "first operation that is not applicable or that only raises (its exception is checked)")
 OUTSIDE = ["resume() of a task that is paused only because it waits on a Deferred it yielded (unbalanced "
            "resume: documented misuse, makes the task runnable while it waits)",
-           "tasks added after the first tick, Cooperator.start()/started=False, coiterate(), time based "
+           "tasks added after the first tick, Cooperator.start()/started=False, coiterate(doneDeferred=...), time based "
            "termination predicates with more than one work unit per tick, iterators yielding already fired "
            "Deferreds, re-entrant calls from whenDone callbacks",
            "starvation bound beyond the bounded histories: the reference round-robin (list position kept across "
@@ -161,11 +161,17 @@ def _run(n, scripts, ops, slen):
     its = [It(i) for i in range(n)]
     tasks = []
     for i in range(n):
-        t = coop.cooperate(its[i])
+        if i < n - 1:
+            t = coop.cooperate(its[i])
+            wd = t.whenDone()
+        else:
+            # the last task is started through coiterate(): its Deferred is observed instead of whenDone()
+            wd = coop.coiterate(its[i])
+            t = coop._tasks[-1]
         tasks.append(t)
         m_tasks.append(i)
-        t.whenDone().addCallbacks(lambda r, i=i: done[i].append(("ok", r)),
-                                  lambda f, i=i: done[i].append(("fail", f)))
+        wd.addCallbacks(lambda r, i=i: done[i].append(("ok", r)),
+                        lambda f, i=i: done[i].append(("fail", f)))
 
     def pending_calls():
         return [dc for dc in calls if not dc.cancelled and not dc.called]
